@@ -128,7 +128,10 @@ def observe(args):
             for c in combs.values():
                 c.softmax_temperature = st['temp'] if st['temp'] is not None else 1
             if st.get('via_update') is not None:
-                sn.update_softmax_options(hard=st['via_update'])
+                if st.get('via_temp') is not None:
+                    sn.update_softmax_options(temperature=st['via_temp'], hard=st['via_update'])
+                else:
+                    sn.update_softmax_options(hard=st['via_update'])
             torch.manual_seed(st['seed'])
             try:
                 if st.get('grad'):
@@ -235,6 +238,11 @@ def gen_settings(rng, d, quick):
     st(rand_alpha(), False, [True] * len(nbr), rng.choice([None, 0.05, 20.0]))   # hard, eval
     st(rand_alpha(), True, [True] * len(nbr), None)                              # hard / Gumbel-hard, train
     st(rand_alpha(), rng.random() < 0.5, cfg_hard, None, via=rng.choice([True, False]))   # through update_softmax_options
+    # hard selection ON (attribute / as constructed), then turned OFF again through update_softmax_options(hard=False[, temperature]),
+    # then a forward pass and the cost: the coefficients must be the softmax again
+    for vt in (None, rng.choice([0.5, 2.0, 5.0])):
+        st(rand_alpha(), False, [True] * len(nbr), None, via=False)
+        sts[-1]['via_temp'] = vt
     # forward pass, THEN update_softmax_options, THEN get_cost without a new forward: theta_alpha is still the one sampled by the pass
     for (hard0, after) in ((False, {'hard': True, 'temperature': None}), (False, {'hard': True, 'temperature': rng.choice([0.1, 5.0])}),
                            (False, {'hard': False, 'temperature': rng.choice([0.5, 20.0])}), (True, {'hard': False, 'temperature': None}),
@@ -303,6 +311,24 @@ def check_obs(d, table, st, o, fails, tag):
     used = sorted({it[1] for it in d['chain'] if it[0] == 'block'})
     det_hard = (all(eff_hard[b] for b in used) and not st.get('after') and not st.get('neartie')
                 and (not st['train'] or not any(d['blocks'][b]['gumbel'] for b in used)))
+    # SOFT selection requested by the last option call and nothing random (eval mode, or no Gumbel block): the sampled coefficients
+    # are softmax(alpha / T) (computed here in float64), and the cost is their mix
+    temp_eff = st.get('via_temp') if (st.get('via_update') is not None and st.get('via_temp') is not None) else (st['temp'] if st['temp'] is not None else 1)
+    det_soft = (not any(eff_hard[b] for b in used) and not st.get('after')
+                and (not st['train'] or not any(d['blocks'][b]['gumbel'] for b in used)))
+    theta_soft = None
+    if det_soft:
+        import math
+        theta_soft = []
+        for a in st['alphas']:
+            mx = max(a)
+            ex = [math.exp((v - mx) / temp_eff) for v in a]
+            theta_soft.append([Fraction(v / sum(ex)) for v in ex])
+        worst = max(abs(float(t) - float(u)) for b in used for t, u in zip(theta[b], theta_soft[b]))
+        if worst > 1e-5:
+            fails.append(('soft-selection-coefficients-not-softmax', dict(info, what='hard_softmax off on every block (last option call: %s), temperature %r, %s mode: theta_alpha %r, softmax(alpha/T) %r'
+                                                                           % ('update_softmax_options(hard=False%s)' % (', temperature=%r' % st['via_temp'] if st.get('via_temp') is not None else '') if st.get('via_update') is not None else 'attribute',
+                                                                              temp_eff, 'train' if st['train'] else 'eval', o['theta'], [[round(float(v), 6) for v in t] for t in theta_soft]))))
     sfx = ':after-cost-specification-reassignment' if (st.get('flip') or st.get('reassign_orig')) else ''
     if fixed_diffres(d):
         sfx = ':fixed-layer-invoked-at-different-resolutions' + sfx
@@ -310,6 +336,10 @@ def check_obs(d, table, st, o, fails, tag):
         shared = shared_of(st, s)
         for full in (False, True):
             c = o['cost']['%s/%d' % (s, full)]
+            if theta_soft is not None:
+                exps = mix_cost(d, table, s, shared, full, lambda b, bc: theta_soft[b])
+                if not close(c, exps, 2.0 ** -14):
+                    fails.append(('soft-selection-cost-not-softmax-mix', dict(info, what='metric %s full_cost=%s, soft selection (temperature %r): get_cost = %r, softmax(alpha/T)-weighted mix of the branch costs (+ fixed layers) = %r' % (s, full, temp_eff, c, float(exps)))))
             if st.get('flip') and o['fresh'].get('%s/%d' % (s, full)) != c:
                 fails.append(('reassigned-spec-differs-from-fresh-supernet', dict(info, what='metric %s (shared=%s) full_cost=%s: cost_specification re-assigned on a live SuperNet gives %r, a SuperNet constructed with that specification gives %r' % (s, shared, full, c, o['fresh'].get('%s/%d' % (s, full))))))
             if det_hard and o.get('export_exc') is None and o['scratch'] and not (is_diffres(d) and not shared):
@@ -363,6 +393,7 @@ def run(ctx):
                 'hard eval, hard/Gumbel-hard train, update_softmax_options(hard=...), temperatures {.05,.1,.5,1,2,5,20}, coefficients = distinct multiples of 1/16 (10% ties), '
                 '5 sequences forward -> update_softmax_options(hard / temperature) -> get_cost WITHOUT a new forward (soft pass then hard flag, hard pass then soft flag; cost compared on the theta_alpha observed at that moment), '
                 'fixed (non-choice) layers invoked twice, on the same and on two different resolutions (dedicated stream + 40% of the other networks), costed per invocation with the shape of each call site; '
+                'hard selection switched ON then OFF again through update_softmax_options(hard=False[, temperature]) before the forward; under deterministic SOFT selection the coefficients must be softmax(alpha/T) and the cost their mix; branches with two distinct layers sharing one weight Parameter; '
                 'the first 3 settings use the options exactly as given to the SuperNetModule constructors (hard_softmax with and without gumbel_softmax), nothing called before; coefficients written by no_grad copy_ / .data = / .data.copy_ / .data[i] = / a new nn.Parameter after the previous forward; forward with or without autograd, selection frozen or not; '
                 '30% of the settings flip full_cost AFTER construction (False->True on the wrapper built without it and True->False on the other) and compare with the from-scratch values; '
                 '4 settings per network re-assign cost_specification on the LIVE wrapper to variants that differ only in `shared` (built-in functions, flipped flag; dict, dict, single spec, back), compared with a freshly constructed SuperNet and with the model; '
